@@ -436,9 +436,9 @@ def run_part2(case, ob, site):
 # ------------------------------------------------------------------------------------------
 # part 3: block-level faults
 
-FAULTS = ['second_driver', 'undriven', 'undriven_register', 'undriven_output', 'reg_driven_by_gate', 'unconnected', 'foreign_wire', 'duplicate_name', 'stale_by_name', 'missing_by_name',
+FAULTS = ['second_driver', 'undriven', 'undriven_register', 'undriven_output', 'reg_driven_by_gate', 'cycle_into_sync_mem', 'unconnected', 'foreign_wire', 'duplicate_name', 'stale_by_name', 'missing_by_name',
           'sync_mem_comb_addr', 'comb_cycle', 'isolated_ring', 'mem_cycle', 'bad_arity', 'bad_width']
-CYCLES = ('comb_cycle', 'isolated_ring', 'mem_cycle')   # detected by iteration (simulator construction), not by sanity_check alone
+CYCLES = ('comb_cycle', 'isolated_ring', 'mem_cycle', 'cycle_into_sync_mem')   # detected by iteration (simulator construction), not by sanity_check alone
 
 
 def part3_cases(tier, seed):
@@ -529,6 +529,19 @@ def inject(block, fault, fsite):
             for n in [n for n in nets if n.op == 'r' and n.dests[0] is r_]:
                 block.logic.remove(n)
             block.logic.add(LogicNet('w' if fsite % 2 == 0 else '~', None, (s_,), (r_,)))
+        elif fault == 'cycle_into_sync_mem':
+            # a combinational loop of plain wires drives the read address of a synchronous memory
+            if fsite > 1:
+                return False
+            m_ = pyrtl.MemBlock(bitwidth=2, addrwidth=2, name='vf_sync', asynchronous=False)
+            w1, w2 = pyrtl.WireVector(2, 'vf_l1'), pyrtl.WireVector(2, 'vf_l2')
+            w1 <<= w2
+            if fsite == 0:
+                w2 <<= w1
+            else:
+                w2 <<= pyrtl.concat(w1[0], w1[1])
+            o_ = pyrtl.Output(2, 'vf_syncout')
+            o_ <<= m_[w1]
         elif fault == 'undriven_output':
             cand = [n for n in nets if n.dests and isinstance(n.dests[0], pyrtl.Output)]
             if fsite >= len(cand):
@@ -626,14 +639,30 @@ def acceptors(block):
 
 def _acceptors(block, res):
 
+    import signal
+
+    class _Hang(Exception):
+        pass
+
+    def _alarm(*a):
+        raise _Hang()
+
     def tryit(name, fn):
+        # a check that does not come back is neither a rejection nor a simulation: reported as such after 10 s
+        old = signal.signal(signal.SIGALRM, _alarm)
+        signal.alarm(10)
         try:
             fn()
             res[name] = None
         except (pyrtl.PyrtlError, pyrtl.PyrtlInternalError) as e:
             res[name] = 'rejected'
+        except _Hang:
+            res[name] = 'other: no answer within 10 s (does not terminate)'
         except Exception as e:
             res[name] = 'other:%s: %s' % (type(e).__name__, e)
+        finally:
+            signal.alarm(0)
+            signal.signal(signal.SIGALRM, old)
     tryit('sanity_check', block.sanity_check)
     tryit('Simulation', lambda: pyrtl.Simulation(block=block))
     tryit('FastSimulation', lambda: pyrtl.FastSimulation(block=block))
